@@ -1,7 +1,9 @@
 //! Engine: proptest-driven exploration over choice sequences, exhaustive enumerators,
 //! statistics, evidence, replay files, known findings and the output protocol.
 
+pub mod alloc;
 pub mod child;
+pub mod journal;
 pub mod src;
 
 pub use src::Src;
@@ -326,14 +328,17 @@ impl Run {
         let seed = self.seed;
         std::thread::scope(|sc| {
             for _ in 0..self.threads.min(SHARDS) {
-                sc.spawn(|| loop {
-                    let shard = next.fetch_add(1, Ordering::SeqCst);
-                    if shard >= SHARDS {
-                        break;
-                    }
-                    let (stats, fail) = run_shard(name, seed, shard, per_shard, max_words, f, &stop);
-                    results.lock().unwrap().push((shard, stats, fail));
-                });
+                std::thread::Builder::new()
+                    .stack_size(journal::WORKER_STACK)
+                    .spawn_scoped(sc, || loop {
+                        let shard = next.fetch_add(1, Ordering::SeqCst);
+                        if shard >= SHARDS {
+                            break;
+                        }
+                        let (stats, fail) = run_shard(name, seed, shard, per_shard, max_words, f, &stop);
+                        results.lock().unwrap().push((shard, stats, fail));
+                    })
+                    .expect("spawn worker");
             }
         });
         let mut results = results.into_inner().unwrap();
@@ -369,14 +374,17 @@ impl Run {
         let fails: Mutex<Vec<(u64, String)>> = Mutex::new(vec![]);
         std::thread::scope(|sc| {
             for _ in 0..self.threads {
-                sc.spawn(|| {
+                std::thread::Builder::new().stack_size(journal::WORKER_STACK).spawn_scoped(sc, || {
                     let mut ctx = Ctx::new(true);
+                    let mut slot = journal::Slot::open();
                     loop {
                         let b0 = next.fetch_add(BLOCK, Ordering::SeqCst);
                         if b0 >= total || b0 > min_fail.load(Ordering::SeqCst) {
                             break;
                         }
-                        for i in b0..(b0 + BLOCK).min(total) {
+                        let b1 = (b0 + BLOCK).min(total);
+                        slot.begin(name, 1, &[(b0 >> 32) as u32, b0 as u32, (b1 >> 32) as u32, b1 as u32]);
+                        for i in b0..b1 {
                             let words = [(i >> 32) as u32, i as u32];
                             let mut src = Src::new(&words);
                             ctx.stats.evaluations += 1;
@@ -391,9 +399,10 @@ impl Run {
                                 break;
                             }
                         }
+                        slot.end();
                     }
                     merged.lock().unwrap().merge(ctx.stats);
-                });
+                }).expect("spawn worker");
             }
         });
         let mut fails = fails.into_inner().unwrap();
@@ -418,10 +427,13 @@ impl Run {
         let t0 = Instant::now();
         let mut ctx = Ctx::new(true);
         let mut failure = None;
+        let mut slot = journal::Slot::open();
         for c in cases {
             let mut src = Src::new(c);
             ctx.stats.evaluations += 1;
+            slot.begin(name, 0, c);
             let r = guard(|| f(&mut src, &mut ctx)).and_then(|r| r);
+            slot.end();
             if let Err(m) = r {
                 failure = Some(Failure { sub: name.to_string(), choices: c.clone(), message: m });
                 break;
@@ -602,6 +614,20 @@ impl Run {
     }
 }
 
+/// Deterministic choice vectors (full length) for building fixed base inputs from the seed.
+pub fn draw_vectors(seed: u64, name: &str, count: usize, words: usize) -> Vec<Vec<u32>> {
+    use proptest::strategy::{Strategy, ValueTree};
+    let mut cfg = Config::default();
+    cfg.failure_persistence = None;
+    cfg.rng_seed = RngSeed::Fixed(mix(seed, name, 0xBA5E));
+    let mut runner = TestRunner::new(cfg);
+    let strat = pvec(any::<u32>(), words..=words);
+    (0..count).map(|_| strat.new_tree(&mut runner).expect("draw").current()).collect()
+}
+pub fn env_seed() -> u64 {
+    std::env::var("VERIF_SEED").ok().and_then(|s| s.trim().parse::<i64>().ok()).map(|v| v as u64).unwrap_or(0)
+}
+
 fn run_shard(
     name: &str,
     seed: u64,
@@ -623,6 +649,7 @@ fn run_shard(
     let mut runner = TestRunner::new(cfg);
     let ctx = RefCell::new(Ctx::new(true));
     let failed = std::cell::Cell::new(false);
+    let slot = RefCell::new(journal::Slot::open());
     // Mix of lengths: the vector length is uniform in 0..=max_words, so every case has a
     // random "budget" after which all further choices are the simplest ones.
     let strat = pvec(any::<u32>(), 0..=max_words);
@@ -631,6 +658,7 @@ fn run_shard(
             return Ok(());
         }
         let mut src = Src::new(&choices);
+        slot.borrow_mut().begin(name, 0, &choices);
         let r = if failed.get() {
             let mut scratch = Ctx::new(false);
             guard(|| f(&mut src, &mut scratch)).and_then(|r| r)
@@ -639,6 +667,7 @@ fn run_shard(
             c.stats.evaluations += 1;
             guard(|| f(&mut src, &mut c)).and_then(|r| r)
         };
+        slot.borrow_mut().end();
         match r {
             Ok(()) => Ok(()),
             Err(m) => {
@@ -696,6 +725,7 @@ impl KnownFindings {
 pub struct Replay {
     pub sub: String,
     pub choices: Vec<u32>,
+    pub seed: Option<u64>,
 }
 pub fn load_replay(path: &str) -> Result<Replay, String> {
     let txt = std::fs::read_to_string(path).map_err(|e| format!("{}: {}", path, e))?;
@@ -707,26 +737,8 @@ pub fn load_replay(path: &str) -> Result<Replay, String> {
         .iter()
         .map(|x| x.as_u64().unwrap_or(0) as u32)
         .collect();
-    Ok(Replay { sub, choices })
-}
-
-/// Run one case through the bare oracle (no proptest), for `--replay`.
-pub fn replay_case(prop: &str, rp: &Replay, f: &CaseFn, path: &str) -> i32 {
-    let mut ctx = Ctx::new(false);
-    ctx.replay = true;
-    let mut src = Src::new(&rp.choices);
-    let r = guard(|| f(&mut src, &mut ctx)).and_then(|r| r);
-    match r {
-        Ok(()) => {
-            emit(&format!("REPLAY-OK property={} sub={}", prop, rp.sub));
-            0
-        }
-        Err(m) => {
-            emit(&format!("  failure: {}", m.replace('\n', " | ")));
-            emit(&format!("VIOLATION property={} replay={}", prop, path));
-            1
-        }
-    }
+    let seed = v["seed"].as_u64();
+    Ok(Replay { sub, choices, seed })
 }
 
 pub fn flush_stderr() {
